@@ -463,6 +463,106 @@ def leg_sqlite_history(ns, res, spec):
         shutil.rmtree(d, ignore_errors=True)
 
 
+def leg_pandas_history(ns, res, spec):
+    """ONE DataFrame object (and one join frame) serves a whole history of queries while its owner re-labels, adds, drops and overwrites columns in place
+    between them; every result must equal the result of the same query over a newly built equal frame in a forked child that has run no query."""
+    import json
+    import pandas as pd
+    rng = random.Random(spec['seed'] * 1299709 + spec['i'])
+    pool = ['id', 'name', 'val', 'grp', 'k', 'x', 'y', 'NR', 'a1', 'size', 'city']
+
+    def run(q, dfa, dfb):
+        try:
+            out = ns.rbql.query_pandas_dataframe(q, dfa, [], dfb)
+            return {'error': None, 'columns': [str(c) for c in out.columns], 'rows': [[str(v) for v in r] for r in out.values.tolist()]}
+        except Exception as e:
+            return {'error': util.error_class(e) if 'Rbql' in type(e).__name__ or isinstance(e, SyntaxError) else 'other:' + type(e).__name__, 'columns': None, 'rows': None}
+
+    def solo(q, names, rows, bnames, brows, use_b):
+        r, w = os.pipe()
+        pid = os.fork()
+        if pid == 0:
+            code = 0
+            try:
+                os.close(r)
+                got = run(q, pd.DataFrame(rows, columns=names), pd.DataFrame(brows, columns=bnames) if use_b else None)
+                with os.fdopen(w, 'w') as f:
+                    f.write(json.dumps(got))
+            except BaseException:
+                code = 1
+            os._exit(code)
+        os.close(w)
+        with os.fdopen(r) as f:
+            data = f.read()
+        os.waitpid(pid, 0)
+        return json.loads(data) if data else None
+
+    for n in range(spec['n']):
+        w = rng.randrange(2, 5)
+        names = rng.sample(pool, w)
+        rows = [[rng.choice(['a', 'b', '1', '2', 'x y']) for _ in range(w)] for _ in range(rng.randrange(1, 5))]
+        bnames = ['bk', 'bv']
+        brows = [[rng.choice(rows)[0], rng.choice(['p', 'q'])] for _ in range(rng.randrange(1, 4))]
+        dfa = pd.DataFrame([list(r) for r in rows], columns=list(names))
+        dfb = pd.DataFrame([list(r) for r in brows], columns=list(bnames))
+        history = []
+        for step in range(rng.randrange(3, 7)):
+            # the owner changes the frames in place
+            op = rng.choice(['none', 'relabel', 'rename', 'add', 'drop', 'cell', 'relabel-b', 'permute']) if step else 'none'
+            if op == 'relabel':
+                names = rng.sample(pool, len(names))
+                dfa.columns = list(names)
+            elif op == 'permute' and len(names) > 1:
+                names = names[1:] + names[:1]
+                dfa.columns = list(names)
+            elif op == 'rename':
+                j = rng.randrange(len(names))
+                new = rng.choice([x for x in pool if x not in names])
+                dfa.rename(columns={names[j]: new}, inplace=True)
+                names[j] = new
+            elif op == 'add' and len(names) < 6:
+                new = rng.choice([x for x in pool if x not in names])
+                vals = [rng.choice(['n1', 'n2']) for _ in rows]
+                dfa[new] = vals
+                names.append(new)
+                rows = [r + [v] for r, v in zip(rows, vals)]
+            elif op == 'drop' and len(names) > 2:
+                j = rng.randrange(1, len(names))
+                dfa.drop(columns=[names[j]], inplace=True)
+                del names[j]
+                rows = [r[:j] + r[j + 1:] for r in rows]
+            elif op == 'cell':
+                i, j = rng.randrange(len(rows)), rng.randrange(len(names))
+                dfa.iloc[i, j] = 'changed'
+                rows[i][j] = 'changed'
+            elif op == 'relabel-b':
+                bnames = rng.sample(['bk', 'bv', 'w', 'key', 'name'], 2)
+                dfb.columns = list(bnames)
+            col = rng.choice(names)
+            attr = lambda t, c: '%s.%s' % (t, c) if c.isidentifier() else '%s["%s"]' % (t, c)
+            q = rng.choice(['select *', 'select %s, NR' % attr('a', col), 'update a1 = "u"', 'select a1, %s join b on a1 == b1' % attr('b', rng.choice(bnames)), 'select a["%s"]' % col,
+                            'select a.nosuch_column', 'select distinct count a1', 'select * except %s' % attr('a', col), 'select a.*, b.* join b on a1 == %s' % attr('b', bnames[0]), 'select a2 as %s, a1' % rng.choice(pool)])
+            use_b = ' join ' in q
+            got = run(q, dfa, dfb if use_b else None)
+            want = solo(q, list(names), [list(r) for r in rows], list(bnames), [list(r) for r in brows], use_b)
+            history.append([op, q])
+            res.evaluations += 1
+            res.count('pandas_history_runs')
+            res.count('pandas_history_op:' + op)
+            if want is None:
+                res.count('pandas_history_solo_unavailable')
+                continue
+            res.count('pandas_history_solo_results_from_forked_children')
+            if want['error']:
+                res.count('pandas_history_solo_failing')
+            res.nontrivial('pandas-hist', n, step, q, op)
+            if got != want:
+                res.violation('py:pandas-result-depends-on-history', '[py/pandas] %r over the SAME DataFrame object after history %r (columns now %r) -> %r ; over a newly built equal frame in a fresh child -> %r' % (q, history[:-1], names, got, want),
+                              {'leg': 'pandas-history', 'history': history, 'names': names, 'rows': rows})
+                break
+    res.sample({'leg': 'pandas-history', 'histories': spec['n'], 'in_place_operations': ['relabel', 'permute', 'rename', 'add', 'drop', 'cell', 'relabel-b']})
+
+
 def leg_preempt(ns, res, spec):
     """8 threads x N queries with a tiny switch interval and seeded sleep(0) injected between statements of the engine and the generated loop."""
     R = spec['R']
@@ -534,6 +634,7 @@ def plan(tier, seed):
         specs += [{'kind': 'generated', 'i': i, 'n': 60, 'pairs': 40, 'schedules': 3} for i in range(4)]
         specs += [{'kind': 'js-history', 'i': i, 'n': 40} for i in range(4)]
         specs.append({'kind': 'sqlite-history'})
+        specs += [{'kind': 'pandas-history', 'i': i, 'n': 40} for i in range(2)]
     else:
         solo4 = fresh_baselines(4)
         kinds = ['get_record', 'write', 'finish']
@@ -552,20 +653,21 @@ def plan(tier, seed):
         specs += [{'kind': 'generated', 'i': i, 'n': 400, 'pairs': 400, 'schedules': 6} for i in range(12)]
         specs += [{'kind': 'js-history', 'i': i, 'n': 200} for i in range(8)]
         specs.append({'kind': 'sqlite-history'})
+        specs += [{'kind': 'pandas-history', 'i': i, 'n': 300} for i in range(6)]
     return specs
 
 
 def run_shard(spec, res):
     ns = env.import_rbql()
-    {'history': leg_history, 'interleave': leg_interleave, 'preempt': leg_preempt, 'generated': leg_generated, 'js-history': leg_js_history, 'sqlite-history': leg_sqlite_history}[spec['kind']](ns, res, spec)
+    {'history': leg_history, 'interleave': leg_interleave, 'preempt': leg_preempt, 'generated': leg_generated, 'js-history': leg_js_history, 'sqlite-history': leg_sqlite_history, 'pandas-history': leg_pandas_history}[spec['kind']](ns, res, spec)
 
 
 def summarize(tier, seed, m):
     return {
-        'rule': '%d scenarios (plain select, like, UNNEST, ORDER BY, DISTINCT COUNT, GROUP BY with all nine aggregates, JOIN, UPDATE with NU, TOP, syntax error, parsing error, runtime error at record 2, aggregate misuse, double UNNEST, and two pairs of identical query texts over differently ordered headers); solo results from one fresh interpreter per scenario; history: every sequence of length <= 2 plus random sequences of length 3..6 in one process; interleaving: every unordered pair of scenarios (incl. a scenario with itself) in two real threads under the cooperative scheduler, ALL interleavings of the get_record / write / finish steps enumerated by stateless DFS (%s); preemption stress with sys.monitoring LINE yield injection; generated queries (C01-C05 generators, failing variants, and header twins: the same query text over the same data with the columns in another order) whose solo results come from forked children of a query-free interpreter, then run in three shuffled orders through one interpreter (probe sink and CSV writer sink) and pairwise in two threads under seeded random schedules; the JS port sequentially: generated language-neutral queries alone in a fresh node process each vs three shuffled histories (with failing queries interspersed) in one node process; the sqlite front-end with one connection shared by every ordered pair of 15 queries (utf-8 / latin-1 output, 7 of them failing) vs a fresh connection each, and the caller\'s connection settings before / after. distinct_nontrivial = distinct step traces realised + distinct history sequences.' % (
+        'rule': '%d scenarios (plain select, like, UNNEST, ORDER BY, DISTINCT COUNT, GROUP BY with all nine aggregates, JOIN, UPDATE with NU, TOP, syntax error, parsing error, runtime error at record 2, aggregate misuse, double UNNEST, and two pairs of identical query texts over differently ordered headers); solo results from one fresh interpreter per scenario; history: every sequence of length <= 2 plus random sequences of length 3..6 in one process; interleaving: every unordered pair of scenarios (incl. a scenario with itself) in two real threads under the cooperative scheduler, ALL interleavings of the get_record / write / finish steps enumerated by stateless DFS (%s); preemption stress with sys.monitoring LINE yield injection; generated queries (C01-C05 generators, failing variants, and header twins: the same query text over the same data with the columns in another order) whose solo results come from forked children of a query-free interpreter, then run in three shuffled orders through one interpreter (probe sink and CSV writer sink) and pairwise in two threads under seeded random schedules; the JS port sequentially: generated language-neutral queries alone in a fresh node process each vs three shuffled histories (with failing queries interspersed) in one node process; the sqlite front-end with one connection shared by every ordered pair of 15 queries (utf-8 / latin-1 output, 7 of them failing) vs a fresh connection each, and the caller\'s connection settings before / after; the pandas front-end with ONE DataFrame object (and one join frame) serving histories of 3-6 queries while its owner re-labels, permutes, renames, adds, drops and overwrites columns in place between them, each result compared with the same query over a newly built equal frame in a forked child that ran no query. distinct_nontrivial = distinct step traces realised + distinct history sequences.' % (
             len(SCENARIOS), '2-record tables' if tier == 'quick' else '2- and 3-record tables for all pairs (3-record pairs capped at 20000 schedules), 4-record tables for 6 selected pairs'),
         'exhaustive': m['counters'].get('pairs_truncated', 0) == 0,
-        'required': ['sqlite_history_runs', 'sqlite_history_solo_failing', 'js_solo_results_from_fresh_node_processes', 'js_history_runs', 'generated_solo_results', 'generated_header_twins', 'generated_history_runs', 'generated_interleaved_schedules', 'generated_interleaved_handoffs', 'schedules', 'pairs_enumerated_completely', 'handoffs', 'history_runs', 'preemption_runs', 'line_events_in_main_loop', 'injected_yields'],
+        'required': ['pandas_history_runs', 'pandas_history_solo_results_from_forked_children', 'pandas_history_solo_failing', 'pandas_history_op:relabel', 'pandas_history_op:add', 'sqlite_history_runs', 'sqlite_history_solo_failing', 'js_solo_results_from_fresh_node_processes', 'js_history_runs', 'generated_solo_results', 'generated_header_twins', 'generated_history_runs', 'generated_interleaved_schedules', 'generated_interleaved_handoffs', 'schedules', 'pairs_enumerated_completely', 'handoffs', 'history_runs', 'preemption_runs', 'line_events_in_main_loop', 'injected_yields'],
         'assumptions': ['exhaustive at the granularity of iterator / writer calls (what the statement names); statement-level preemption is sampled; bytecode-level is not explored', 'a change of module-level state alone is not a refutation (advisory notes only)'],
     }
 
